@@ -71,6 +71,16 @@ theorem dtcwt_glue_gen :
     dtcwtinv_loop = ["(j, s)", "zip(range(J - 1, 0, -1), highs[1:][::-1])"] := by
   decide
 
+/-- **the scattering modules hand every option of the call to the Function as an ARGUMENT** (filters, padding mode, smoothing bias,
+colour combination, in this order), for the plain and the band-pass families: nothing a call needs travels through the process -/
+theorem scat_glue_gen :
+    scat1_args_plain = ["x", "self.h0o", "self.h1o", "self.mode", "self.magbias", "self.combine_colour"] ∧
+    scat1_args_rot = ["x", "self.h0o", "self.h1o", "self.h2o", "self.mode", "self.magbias", "self.combine_colour"] ∧
+    scatj2_args_plain = ["x", "self.h0o", "self.h1o", "self.h0a", "self.h0b", "self.h1a", "self.h1b", "self.mode", "self.magbias", "self.combine_colour"] ∧
+    scatj2_args_rot = ["x", "self.h0o", "self.h1o", "self.h2o", "self.h0a", "self.h0b", "self.h1a", "self.h1b", "self.h2a", "self.h2b", "self.mode", "self.magbias",
+      "self.combine_colour"] := by
+  decide
+
 /-- **no `forward` of a public module class assigns to an attribute of the module**: whatever a call computes lives in locals, so the
 module a call sees is the module the caller built (the model's modules are functions of their arguments and buffers; C15) -/
 theorem forward_keeps_no_state_gen :
